@@ -474,7 +474,9 @@ def judge(case, x):
                 (got, clauses))
     else:
         try:
-            if tt.count(tt.cnf_models(n, got)) != tt.count(tt.cnf_models(n, clauses)):
+            # (cross-check only: the witness above already decides; skipped
+            # beyond the width a truth table can have)
+            if n <= 20 and tt.count(tt.cnf_models(n, got)) != tt.count(tt.cnf_models(n, clauses)):
                 bad('model-count', 'number of models changed')
         except ValueError as e:
             bad('literal-range', str(e))
@@ -730,6 +732,13 @@ def shards(tier, seed):
         cls = [[(i % big) + 1, -(((i * 7) % big) + 1)] for i in range(big)]
         for nm in ('identity', 'reverse', 'rotate'):
             ex.append({'n': big, 'clauses': cls, 'large': nm})
+    # very sparse formulas: many declared variables, a handful of literal
+    # occurrences (seeded change C09-s23: a separate code path for
+    # N > 8 * occurrences), the last variable occurring or not
+    for big in (60, 300):
+        for cls in ([[1, -big], [7]], [[2, -5], [5]], [[big], [-1, big]]):   # (two clauses at least: the invalid argument sets of this mode need M >= 2)
+            for nm in ('identity', 'reverse', 'rotate'):
+                ex.append({'n': big, 'clauses': cls, 'large': nm})
     for i, ch in enumerate(scope.stripe(ex, 40)):
         out.append(('e%03d' % i, 'run_explicit', ch))
     # random part
@@ -780,6 +789,16 @@ def shards(tier, seed):
                 if entry == 'cnfshuffle-o':
                     c_['outname'] = 'out.cnf'
                 rnd.append(c_)
+    # clauses whose width sits on the boundaries a line-wrapping writer can
+    # have (seeded change C09-s24: terminator lost at exactly 128, 256 literals),
+    # through the tools, nothing random
+    wide = [list(range(1, 129)), [-i for i in range(1, 257)], list(range(129, 257)),
+            list(range(1, 128)), [-i for i in range(1, 130)], list(range(1, 65)), [256]]
+    for entry in ('cnfshuffle', 'cnfgen-T', 'cnfshuffle-o', 'lib'):
+        c_ = {'entry': entry, 'n': 256, 'clauses': wide, 'switches': [True, True, True]}
+        if entry == 'cnfshuffle-o':
+            c_['outname'] = 'out.cnf'
+        rnd.append(c_)
     if thorough:
         big = [(4, [[1, -2], [2, 3, -4], [-1], [4, 1, 2], [3]]),
                (5, [[1, 2, 3, 4, 5], [-1, 2], [-2, 3], [-3, 4], [-4, 5], [5]])]
